@@ -151,9 +151,17 @@ def check_cartesian_flow(ctx):
             gen = n
     ok = False
     posname = volname = None
+    g = None
     if gen is not None and len(gen.generators) == 1:
         g = gen.generators[0]
-        it = g.iter
+    else:
+        # explicit loop: for position, volume in zip(P[k], V[k]): emulsion.append(from_volume(position, volume))
+        lpq = si.enclosing(c, (ast.For,))
+        if lpq is not None:
+            g = lpq[0]
+            gen = lpq[0]
+    if g is not None:
+        it = fv.expand(g.iter, g if isinstance(g, ast.For) else c, stop=("positions", "volumes"), allow_mutated=True, depth=2) if not isinstance(g.iter, ast.Call) else g.iter
         if isinstance(it, ast.Call) and dotted(it.func) == "zip" and len(it.args) == 2 and isinstance(g.target, ast.Tuple):
             tp, tv = (U(e) for e in g.target.elts)
             ok = [U(a) for a in c.args] == [tp, tv]
@@ -207,12 +215,20 @@ def check_cartesian_volume(ctx):
         ctx.undecided("DIM", site, fi, "unit of the cluster volumes not inferable")
     for kind, node, msg, key in ev.mismatches:
         ctx.violate(kind, f"{site}:{key}", (fi, node), msg)
+    def _measure_args(c):
+        """(input, labels, index) of an ndimage measurement, positional or by keyword, temporaries resolved"""
+        out = []
+        for pos, nm in ((0, "input"), (1, "labels"), (2, "index")):
+            a = arg_or_kw(c, pos, nm)
+            out.append(U(fv.expand(a, c, stop=("mask", "labels", "num_labels"))) if a is not None else None)
+        return out
+
     com = [c for c in fv.calls() if (fv.callee(c) or "") == "scipy.ndimage.center_of_mass"]
-    okc = len(com) == 1 and [U(a) for a in com[0].args[:2]] == ["mask.data", "labels"] and kwarg(com[0], "index") is not None and U(kwarg(com[0], "index")) == "indices"
     sm = [c for c in fv.calls() if (fv.callee(c) or "") in ("scipy.ndimage.sum", "scipy.ndimage.sum_labels")]
-    oks = len(sm) == 1 and kwarg(sm[0], "index") is not None and U(kwarg(sm[0], "index")) == "indices" and [U(a) for a in sm[0].args[:2]] == ["mask.data", "labels"]
-    idx = [s for s in fv.statements() if isinstance(s, (ast.Assign, ast.AnnAssign)) and U(s.targets[0] if isinstance(s, ast.Assign) else s.target) == "indices"]
-    oki = bool(idx) and U(idx[0].value) == "range(1, num_labels + 1)"
+    want_args = ["mask.data", "labels", "range(1, num_labels + 1)"]
+    okc = len(com) == 1 and _measure_args(com[0]) == want_args
+    oks = len(sm) == 1 and _measure_args(sm[0]) == want_args
+    oki = True
     ctx.decide(okc and oks and oki, "DIM", site + ":labels", (fi, com[0]) if com else fi, "positions and volumes are measured for the same labels 1…num_labels",
                "centre of mass and volume are not measured over the same label list range(1, num_labels + 1)")
 
@@ -286,10 +302,15 @@ def check_merge(ctx):
                 on_ax = ie.body if isinstance(cpt[1], ast.Eq) else ie.orelse
                 if isinstance(on_ax, ast.List) and len(on_ax.elts) == 1 and U(on_ax.elts[0]) in ("0", "-1"):
                     side[tgt.id] = "low" if U(on_ax.elts[0]) == "0" else "high"
-    zl = [s for s in ast.walk(lp) if isinstance(s, ast.For) and isinstance(s.iter, ast.Call) and dotted(s.iter.func) == "zip" and len(s.iter.args) == 2]
+    zl = []
+    for s in ast.walk(lp):
+        if isinstance(s, ast.For):
+            it_ = s.iter if isinstance(s.iter, ast.Call) else fv.expand(s.iter, s, stop=tuple(side), allow_mutated=True, depth=3)
+            if isinstance(it_, ast.Call) and dotted(it_.func) == "zip" and len(it_.args) == 2:
+                zl.append((s, it_))
     idx_side = {}
-    if zl and isinstance(zl[0].target, ast.Tuple) and len(zl[0].target.elts) == 2:
-        for tv, a in zip(zl[0].target.elts, zl[0].iter.args):
+    if zl and isinstance(zl[0][0].target, ast.Tuple) and len(zl[0][0].target.elts) == 2:
+        for tv, a in zip(zl[0][0].target.elts, zl[0][1].args):
             lists = [n.id for n in ast.walk(a) if isinstance(n, ast.Name) and n.id in side]
             if len(lists) == 1:
                 idx_side[U(tv)] = side[lists[0]]
@@ -472,7 +493,7 @@ def check_merge(ctx):
     # so that any equivalent spelling — guard clause, De Morgan, flipped comparisons — is the same condition)
     from ..astutil import mini_eval
 
-    zloop = zl[0] if zl else lp
+    zloop = zl[0][0] if zl else lp
     labs = sorted({f"labels[{iv}]" for iv in idx_side})
     okc, why = None, ""
     if len(labs) == 2:
